@@ -80,6 +80,44 @@ pub fn corr(tier: &str, seed: u64, c: &mut Corr) {
                 c.emit(&format!("usets {} {} {}", mat_bits(&m), hx(x.f32v), hx(y.f32v)), &ts_bits(first_group_ts(t.root())));
             }
         }
+        // ---- transform-origin given with units, percentages or keywords, in a non-square view box
+        if valid {
+            let units = ["", "px", "mm", "in", "pt", "pc", "cm", "em", "ex", "%"];
+            let pick_len = |rng: &mut Rng| -> (String, String, f32) {
+                // (text in the document, unit for the model, number)
+                match rng.below(4) {
+                    0 => {
+                        let (kw, pct) = *rng.pick(&[("left", 0.0f32), ("center", 50.0), ("right", 100.0)]);
+                        (kw.to_string(), "percent".to_string(), pct)
+                    }
+                    _ => {
+                        let u = *rng.pick(&units);
+                        let n = gen_len(rng, false);
+                        let un = if u.is_empty() { "none" } else if u == "%" { "percent" } else { u };
+                        (format!("{}{}", n.text, u), un.to_string(), n.f32v)
+                    }
+                }
+            };
+            let (xt, xu, xn) = pick_len(&mut rng);
+            let (mut yt, yu, yn) = pick_len(&mut rng);
+            // vertical keywords
+            if yt == "left" { yt = "top".into() } else if yt == "right" { yt = "bottom".into() }
+            let (vw, vh) = (gen_len(&mut rng, true), gen_len(&mut rng, true));
+            let fs = gen_len(&mut rng, true);
+            let dpi = *rng.pick(&[96.0f32, 72.0, 300.0]);
+            let svg = format!(
+                r#"<svg xmlns="http://www.w3.org/2000/svg" viewBox="0 0 {} {}"><g font-size="{}" transform="{}" transform-origin="{} {}"><rect width="10" height="10"/></g></svg>"#,
+                vw.text, vh.text, fs.text, mat_text(&m), xt, yt
+            );
+            let mut od = opts();
+            od.dpi = dpi;
+            if let Ok(t) = usvg::Tree::from_str(&svg, &od) {
+                c.emit(
+                    &format!("origintsu {} {}:{} {}:{} {} {} {} {}", mat_bits(&m), xu, hx(xn), yu, hx(yn), hx(vw.f32v), hx(vh.f32v), hx(dpi), hx(fs.f32v)),
+                    &ts_bits(first_group_ts(t.root())),
+                );
+            }
+        }
         // ---- rounded rectangle radii
         let (w, h) = (gen_len(&mut rng, true), gen_len(&mut rng, true));
         let mut rad = |rng: &mut Rng| -> (String, String) {
@@ -230,7 +268,7 @@ pub fn search(tier: &str, seed: u64, s: &mut Search) {
         let (Some(ta), Some(tb)) = (tree_text(a.as_bytes(), &o), tree_text(b.as_bytes(), &o)) else { return };
         let (ta, tb) = if ignore_ids { (strip_ids(&ta), strip_ids(&tb)) } else { (ta, tb) };
         s.case(kind, a, true);
-        if ta != tb {
+        if !crate::c09::near(&ta, &tb) {
             s.finding(&format!("oracle:expansion:{}", kind), &format!("construct and expansion give different trees; expansion: {}", b), a);
         }
     };
@@ -281,6 +319,47 @@ pub fn search(tier: &str, seed: u64, s: &mut Search) {
         let a = format!(r#"{hdr}<g transform="scale({sc})" transform-origin="{x} {y}"><rect width="5" height="5"/></g></svg>"#);
         let b = format!(r#"{hdr}<g transform="translate({x} {y}) scale({sc}) translate({} {})"><rect width="5" height="5"/></g></svg>"#, -x, -y);
         cmp(s, "transform-origin==conjugation", &a, &b, false);
+        // transform-origin in percentages / keywords of a non-square viewport == conjugation by half sizes
+        {
+            let (vw, vh) = (rng.range(40, 300), rng.range(40, 300));
+            let (px, py) = (*rng.pick(&[0i64, 25, 50, 100]), *rng.pick(&[0i64, 25, 50, 100]));
+            let hdr2 = format!(r#"<svg xmlns="http://www.w3.org/2000/svg" xmlns:xlink="http://www.w3.org/1999/xlink" viewBox="0 0 {vw} {vh}">"#);
+            let a = format!(r#"{hdr2}<g transform="rotate(30) scale({sc} 0.5)" transform-origin="{px}% {py}%"><rect width="5" height="5"/></g></svg>"#);
+            let (ox, oy) = (vw as f64 * px as f64 / 100.0, vh as f64 * py as f64 / 100.0);
+            let b = format!(r#"{hdr2}<g transform="translate({ox} {oy}) rotate(30) scale({sc} 0.5) translate({} {})"><rect width="5" height="5"/></g></svg>"#, -ox, -oy);
+            cmp(s, "transform-origin-percent==conjugation", &a, &b, false);
+            let kw = |p: i64, x: bool| match (p, x) { (0, true) => "left", (0, false) => "top", (50, _) => "center", (100, true) => "right", (100, false) => "bottom", _ => "" };
+            if !kw(px, true).is_empty() && !kw(py, false).is_empty() {
+                let a2 = format!(r#"{hdr2}<g transform="rotate(30) scale({sc} 0.5)" transform-origin="{} {}"><rect width="5" height="5"/></g></svg>"#, kw(px, true), kw(py, false));
+                cmp(s, "transform-origin-keyword==conjugation", &a2, &b, false);
+            }
+        }
+        // use of a symbol / nested svg with viewBox + preserveAspectRatio == group with the viewport transform
+        {
+            let al = crate::c17::ALIGNS[rng.below(10) as usize];
+            let slice = rng.chance(1, 2);
+            let par = if al == "none" { "none".to_string() } else { format!("{} {}", al, if slice { "slice" } else { "meet" }) };
+            let (vbx, vby) = (rng.range(-20, 20) as f64, rng.range(-20, 20) as f64);
+            let vbw = rng.range(4, 80) as f64;
+            let vbh = (vbw * [0.25, 0.5, 1.0, 2.0, 4.0][rng.below(5) as usize]).max(2.0).round();
+            let (w, h) = (rng.range(10, 100) as f64, rng.range(10, 100) as f64);
+            // the SVG rules, computed independently in f64
+            let (sx, sy) = (w / vbw, h / vbh);
+            let (sx, sy) = if al == "none" { (sx, sy) } else { let k = if slice { sx.max(sy) } else { sx.min(sy) }; (k, k) };
+            let fx = if al.starts_with("xMin") || al == "none" { 0.0 } else if al.starts_with("xMid") { 0.5 } else { 1.0 };
+            let fy = if al.ends_with("YMin") || al == "none" { 0.0 } else if al.ends_with("YMid") { 0.5 } else { 1.0 };
+            let tx = (w - vbw * sx) * fx - vbx * sx;
+            let ty = (h - vbh * sy) * fy - vby * sy;
+            let content = format!(r#"<rect x="{}" y="{}" width="{}" height="{}" fill="{fill}"/><circle cx="{}" cy="{}" r="2"/>"#, vbx, vby, vbw, vbh, vbx + 3.0, vby + 3.0);
+            let a = format!(r##"{hdr}<defs><symbol id="s" viewBox="{vbx} {vby} {vbw} {vbh}" preserveAspectRatio="{par}" overflow="visible">{content}</symbol></defs><use xlink:href="#s" x="{x}" y="{y}" width="{w}" height="{h}"/></svg>"##);
+            // the instance group (what `use` becomes) around the group that carries the viewport mapping
+            let b = format!(r#"{hdr}<g><g transform="translate({x} {y}) matrix({sx} 0 0 {sy} {tx} {ty})">{content}</g></g></svg>"#);
+            cmp(s, "use-symbol-viewbox==group", &a, &b, true);
+            let a = format!(r#"{hdr}<svg x="{x}" y="{y}" width="{w}" height="{h}" viewBox="{vbx} {vby} {vbw} {vbh}" preserveAspectRatio="{par}" overflow="visible">{content}</svg></svg>"#);
+            // a nested svg is not an instance: it becomes the mapping group itself
+            let b = format!(r#"{hdr}<g transform="translate({x} {y}) matrix({sx} 0 0 {sy} {tx} {ty})">{content}</g></svg>"#);
+            cmp(s, "nested-svg-viewbox==group", &a, &b, true);
+        }
         // a == g
         let a = format!(r#"{hdr}<a xlink:href="http://x" opacity="0.5"><rect width="5" height="5"/></a></svg>"#);
         let b = format!(r#"{hdr}<g opacity="0.5"><rect width="5" height="5"/></g></svg>"#);
